@@ -64,8 +64,21 @@ class YGen(np.random.Generator):
         if s is not None:
             s.point_current('draw:' + what)
 
+    def _rare(self, a, k, v):
+        # rare-draw fault: the j-th scalar draw of the current library call is replaced by a legal but extreme value (the
+        # stream still advances). The plan is part of the call's specification, so the isolated reference and the history
+        # see the same draws: a branch the library takes for one draw in ten thousand is entered on purpose
+        plan = RARE_PLAN.get(threading.get_ident())
+        if plan is None or a or k:
+            return v
+        plan[2] += 1
+        if plan[2] == plan[0]:
+            RARE_HITS[0] += 1
+            return float(plan[1])
+        return v
+
     def uniform(self, *a, **k):
-        self._y('uniform'); return super().uniform(*a, **k)
+        self._y('uniform'); return self._rare(a, k, super().uniform(*a, **k))
 
     def normal(self, *a, **k):
         self._y('normal'); return super().normal(*a, **k)
@@ -74,7 +87,7 @@ class YGen(np.random.Generator):
         self._y('standard_normal'); return super().standard_normal(*a, **k)
 
     def random(self, *a, **k):
-        self._y('random'); return super().random(*a, **k)
+        self._y('random'); return self._rare(a, k, super().random(*a, **k))
 
     def choice(self, *a, **k):
         self._y('choice'); return super().choice(*a, **k)
@@ -90,6 +103,8 @@ class YGen(np.random.Generator):
 
 
 SCHED = [None]
+RARE_PLAN = {}      # thread id -> [index of the scalar draw to replace, value, draws seen] for the call running on that thread
+RARE_HITS = [0]
 _orig_default_rng = np.random.default_rng
 
 
@@ -164,6 +179,7 @@ def build_call(spec, n, monitor=None, transplant=False):
     ctx.transplant = transplant
     call = api.build(spec['entry'], ctx)
     call.lapack_fail = spec.get('lapack_fail')
+    call.rare_draw = spec.get('rare_draw')
     return call, ctx
 
 
@@ -273,6 +289,9 @@ def run_call(call):
             poison_heap(POISON[0])
         if plan:
             LAPACK_PLAN[threading.get_ident()] = [plan[0], plan[1], 0]
+        rare = getattr(call, 'rare_draw', None)
+        if rare:
+            RARE_PLAN[threading.get_ident()] = [rare[0], rare[1], 0]
         return call.run(), None
     except SimAbort:
         raise
@@ -280,6 +299,7 @@ def run_call(call):
         return None, e
     finally:
         LAPACK_PLAN.pop(threading.get_ident(), None)
+        RARE_PLAN.pop(threading.get_ident(), None)
         err1 = np.geterr()
         if err1 != err0:
             # process-global floating-point error handling was changed by the call and not restored: later results (inf / nan
@@ -498,6 +518,9 @@ def gen_spec(rng, force=None):
     elif rng.random() < 0.2:
         sp['repeat'] = True
         sp['seed_mode'] = 'int'
+    if entry in SEEDED and sp['argseed'] % 4 == 0:
+        # derived from the argument seed, not drawn: the scenario stream of earlier versions is unchanged
+        sp['rare_draw'] = [1 + (sp['argseed'] // 4) % 3, [1e-7, 1e-5, 1 - 1e-9][(sp['argseed'] // 12) % 3]]
     return sp
 
 
@@ -662,6 +685,7 @@ def execute(sc):
             stats['fault.lapack_routine_failed'] = LAPACK_FIRED[0]
         if s.switch_inside:
             stats['probe.context_switch_inside_call'] = s.switch_inside
+            stats['probe.rare_draws_injected'] = RARE_HITS[0]; RARE_HITS[0] = 0
         nontrivial = 1 if (s.switch_inside or s.perturbed) else 0
         sched_dig = dig(s.trace)
     finally:
